@@ -41,14 +41,41 @@ Theorem C05_accept_iff_no_mismatch : forall (cert : Type) (tubid_of : cert -> li
 Proof. exact accept_iff_no_mismatch. Qed.
 Print Assumptions C05_accept_iff_no_mismatch.
 
+(* "... only if the TLS peer PRESENTED [= proved possession of] a certificate whose hash is X": the identity is taken from
+   the leaf certificate of the handshake (crypto.peerFromTransport, as read from crypto.py); whatever further
+   certificates the peer sends along (other Tubs' public certificates) never matter *)
+Theorem C05_identity_is_leaf : forall (cert : Type) (tubid_of : cert -> list Z) r me tgt (p : presented cert) claimed t m,
+  handle_hello cert tubid_of r me tgt p claimed = Accept t m ->
+  exists crt, leaf p = Some crt /\ tubid_of crt = t /\ claimed = Some t /\ (r = Client -> t = tgt) /\ t <> [] /\
+              m = i_am_master me t.
+Proof. exact handle_hello_bound. Qed.
+Print Assumptions C05_identity_is_leaf.
+
+Theorem C05_extra_certificates_irrelevant : forall (cert : Type) (tubid_of : cert -> list Z) r me tgt l e1 e2 claimed,
+  handle_hello cert tubid_of r me tgt {| leaf := l; extras := e1 |} claimed =
+  handle_hello cert tubid_of r me tgt {| leaf := l; extras := e2 |} claimed.
+Proof. exact extras_irrelevant. Qed.
+Print Assumptions C05_extra_certificates_irrelevant.
+
+(* "Any mismatch ... aborts the negotiation without creating a usable connection", against a peer that does not stop:
+   for every sequence of header blocks (hellos, decisions, error blocks, junk) in every chunking -- in particular
+   blocks that arrive after a hello was rejected but before the connection is gone -- every key ever given to
+   Tub.brokerAttached is the hash of the leaf certificate of that transport and, on a client, the dialled id *)
+Theorem C05_peer_keeps_sending : forall (cert : Type) (tubid_of : cert -> list Z) r my tgt (p : presented cert)
+                                        (chunks : list (list blk)) k,
+  In k (n_attached (recv_all cert tubid_of r my tgt p chunks)) ->
+  exists crt, leaf p = Some crt /\ tubid_of crt = k /\ (r = Client -> k = tgt).
+Proof. exact recv_attach_proven. Qed.
+Print Assumptions C05_peer_keeps_sending.
+
 (* both ends of one connection attempt, for every combination of presented certificates, claimed ids, dialled id and
    requested id: whatever either end ever registers is proven by the certificate that end saw (client: and is the
    dialled id); what remains at quiescence was registered *)
 Theorem C05_session_bound : forall (cert : Type) (tubid_of : cert -> list Z) (s : session_cfg cert) oc os,
   session cert tubid_of s = (oc, os) ->
   (forall k, ever oc = Some k ->
-       k = dialled s /\ proven cert tubid_of (cert_c s) k /\ claim_c s = Some k /\ requested s = srv_id s) /\
-  (forall k, ever os = Some k -> proven cert tubid_of (cert_s s) k /\ claim_s s = Some k /\ requested s = srv_id s) /\
+       k = dialled s /\ proven cert tubid_of (leaf (pres_c s)) k /\ claim_c s = Some k /\ requested s = srv_id s) /\
+  (forall k, ever os = Some k -> proven cert tubid_of (leaf (pres_s s)) k /\ claim_s s = Some k /\ requested s = srv_id s) /\
   (forall k, final oc = Some k -> ever oc = Some k) /\
   (forall k, final os = Some k -> ever os = Some k).
 Proof. exact session_bound. Qed.
@@ -59,18 +86,18 @@ Print Assumptions C05_session_bound.
 Theorem C05_mismatch_no_connection : forall (cert : Type) (tubid_of : cert -> list Z) (s : session_cfg cert) oc os,
   session cert tubid_of s = (oc, os) ->
   (requested s <> srv_id s \/ requested s = [] \/
-   mismatch cert tubid_of Client (dialled s) (cert_c s) (claim_c s) \/
-   mismatch cert tubid_of Server [] (cert_s s) (claim_s s)) ->
+   mismatch cert tubid_of Client (dialled s) (leaf (pres_c s)) (claim_c s) \/
+   mismatch cert tubid_of Server [] (leaf (pres_s s)) (claim_s s)) ->
   final oc = None /\ final os = None /\
-  (mismatch cert tubid_of Client (dialled s) (cert_c s) (claim_c s) -> ever oc = None) /\
-  (mismatch cert tubid_of Server [] (cert_s s) (claim_s s) -> ever os = None).
+  (mismatch cert tubid_of Client (dialled s) (leaf (pres_c s)) (claim_c s) -> ever oc = None) /\
+  (mismatch cert tubid_of Server [] (leaf (pres_s s)) (claim_s s) -> ever os = None).
 Proof. exact session_mismatch_no_connection. Qed.
 Print Assumptions C05_mismatch_no_connection.
 
 (* the checks are not vacuous: two honest distinct Tubs do get connected, each under the other's id *)
 Theorem C05_honest_pair_connects : forall (cert : Type) (tubid_of : cert -> list Z) (s : session_cfg cert) ca cb,
-  cert_c s = Some cb -> tubid_of cb = srv_id s -> claim_c s = Some (srv_id s) ->
-  cert_s s = Some ca -> tubid_of ca = cl_id s -> claim_s s = Some (cl_id s) ->
+  leaf (pres_c s) = Some cb -> tubid_of cb = srv_id s -> claim_c s = Some (srv_id s) ->
+  leaf (pres_s s) = Some ca -> tubid_of ca = cl_id s -> claim_s s = Some (cl_id s) ->
   dialled s = srv_id s -> requested s = srv_id s ->
   cl_id s <> srv_id s -> cl_id s <> [] -> srv_id s <> [] ->
   session cert tubid_of s = (obs_connected (srv_id s), obs_connected (cl_id s)).
